@@ -198,14 +198,15 @@ PROPS = {
     },
     "C11": {
         "level": "proof",
-        "verus": ["linecol"],
+        "verus": ["linecol", "parser_core"],
         "kani": ["apollo-compiler/parser.rs"],
         "technique": "Verus loop invariants on the extracted byte loop (unbounded) + complete Kani harness for Name location packing",
         "explanation": "Verus proves for every source text and offset that SourceFile::get_line_column returns None iff the offset is out of bounds, "
                        "line = 1 + number of GraphQL LineTerminators (LF, CRLF as one, CR) ending at or before the offset, and column = 1 + number of UTF-8 "
                        "leading bytes since the line start; get_line_column_range does the same for both ends; SourceSpan::offset / end_offset / line_column / line_column_range "
                        "report the position of the span's own start / end offsets in the span's own file (None iff the file is unknown or an offset is out of bounds). Kani proves for all u32 offsets / 63-bit file ids that a name's location reads back exactly the "
-                       "span supplied and covers exactly the name's text.",
+                       "span supplied and covers exactly the name's text. Locations are rowan text ranges, i.e. sums of the lengths of the tokens put into the tree before the node: they are source offsets exactly when no text the lexer handed out is missing from the tree. "
+                       "That premise is the text-conservation contract of Parser::next_token and the leading-trivia clause of standalone_ty (unit parser_core, shared with C02), which therefore also count here.",
         "not_decided": ["that from_cst attaches the right span to every node (whole AST conversion)",
                         "diagnostic / JSON rendering (ariadne keeps its own line numbering in rendered text reports)",
                         "leading-byte count == scalar-value count (definition of UTF-8; assumed)"],
